@@ -228,6 +228,7 @@ type c17Op struct {
 }
 
 type c17Script struct {
+	e2e     bool
 	thresh  int
 	listen  []c17Addr
 	queries []c17Addr
@@ -343,7 +344,11 @@ func c17ExecIn(t *testing.T, out *verifh.Out, sc *c17Script, e2e bool) []int64 {
 			out.Cover("cases.e2e_eventbus_and_notifiee")
 		}
 	}
-	line := []int64{17, int64(sc.thresh), int64(len(sc.listen))}
+	mode := int64(0)
+	if e2e {
+		mode = 1
+	}
+	line := []int64{17, int64(sc.thresh), mode, int64(len(sc.listen))}
 	for _, a := range sc.listen {
 		tw, r := c17Laddr(T, a)
 		line = append(line, tw, r)
@@ -731,6 +736,7 @@ func c17ScriptFromCase(t *testing.T, toks []int64) *c17Script {
 		t.Fatalf("c17 replay: not a C17 case")
 	}
 	sc := &c17Script{thresh: int(next())}
+	sc.e2e = next() == 1
 	localBy := func(tw, rest int64, needRest bool) c17Addr {
 		for _, a := range c17Locals {
 			atw, arest := c17Laddr(T, a)
@@ -829,5 +835,6 @@ func TestVerifC17Replay(t *testing.T) {
 		t.Fatal(err)
 	}
 	defer out.Close()
-	out.Case(c17Exec(t, nil, c17ScriptFromCase(t, toks), false))
+	sc := c17ScriptFromCase(t, toks)
+	out.Case(c17Exec(t, nil, sc, sc.e2e))
 }
